@@ -726,7 +726,7 @@ impl Prop for C08 {
     }
     fn rule(&self) -> String {
         "Layer stacks: 2-5 metals alternating direction, primitive pitches from {24,40,60,100}, layer pitch 1-4 primitive pitches, 2-8 track entries (gap/signal/power/ground) of even widths incl. Repeat patterns, offsets (incl. half-rail negative offsets), overlaps (incl. rails shared by adjacent periods), flipping on/off, symmetric and asymmetric patterns, even cut and via sizes. \
-         Cells: rectangular outlines whose sides are multiples of every layer pitch, 1..all metals, 0-8 cuts at in-range crossings kept 1 unit clear of each other and of blockages, 0-8 assignments each on its own wire piece on both layers (TrackCross given in either orientation), 0-3 instances of lower-metal sub-cells on the pitch grid in all four reflections, with a strict gap between them. \
+         Cells: rectangular outlines whose sides are multiples of every layer pitch, 1..all metals, 0-8 cuts at in-range crossings kept 1 unit clear of each other and of blockages, 0-8 assignments each on its own wire piece on both layers (TrackCross given in either orientation), 0-3 instances of lower-metal sub-cells (layouts with rectangular outlines, or abstract-only cells with a two-step outline of the same extent) on the pitch grid or off it, in all four reflections, abutting or apart, possibly all with the same instance name; net names carried verbatim (blank-edged, non-ASCII). \
          Oracle (refs in props/c08.rs): the multiset of (layer, rectangle, net) of the compiled top cell, zero-area rectangles dropped, must equal: for every layer, period and track the maximal pieces of [0, span] minus cut intervals (centred on the flip-aware centre of the crossing track) minus instance extents along the track, at the track's flip-aware position and width; rails named VDD/VSS; the piece containing an assignment's crossing carries its net, no other signal piece carries a net; one via of the stack's size centred on each crossing. \
          Generator ill-formed adds ONE conflict to a well-formed cell. In the statement's domain (in-range crossings): a duplicated cut, an assignment on a cut, an assignment inside an instance blockage -> an error is fine, an accepted cell must still match the oracle exactly (one via per assignment; a net only on pieces that cover the crossing); a cut strictly inside a blockage -> only an error is allowed (nothing can tile without overlap). \
          Outside the domain (cut on a track or at a crossing beyond the outline, two different nets on one wire piece): outcome counted, not judged. \
